@@ -62,6 +62,7 @@ struct Sched {
     starting: Vec<usize>,
     /// no reporter / compiled out: a thread normally never creates a sender, so its exit reports nothing
     inert: bool,
+    cancelable: bool,
 }
 
 fn spawn_collector_actor() -> Sender<u8> {
@@ -416,6 +417,15 @@ impl Sched {
         shared().steer.store(true, Ordering::SeqCst);
     }
 
+    /// The application installs its reporter again (same configuration): the collector object is replaced, the
+    /// per-thread command queues and whatever the threads hold stay.  (The background thread this starts is held
+    /// by the manual-mode gate like the first one.)
+    fn reinstall(&mut self) {
+        self.drain_collector();
+        fastrace::set_reporter(rt::CapturingReporter, fastrace::collector::Config::default().cancelable(self.cancelable));
+        emit(json!({"ev":"reinstall"}));
+    }
+
     fn step(&mut self, step: &Value) {
         let ev = step["ev"].as_str().unwrap_or("");
         let t = step["t"].as_u64().unwrap_or(0) as usize;
@@ -426,6 +436,7 @@ impl Sched {
             "cyc" => self.cyc(),
             "col" => self.col(),
             "cycle" => self.full_cycle(),
+            "reinstall" => self.reinstall(),
             _ => self.misses += 1,
         }
     }
@@ -826,6 +837,7 @@ pub fn run(input: &str, output: &str, opts: Opts) -> std::io::Result<i32> {
             open: HashMap::new(),
             starting: Vec::new(),
             inert: !opts.ready || opts.disabled,
+            cancelable: opts.cancelable,
         };
         let is_prefix = beh["prefix"].as_bool().unwrap_or(false) || !beh["shuffle_seed"].is_null();
         if let Some(seed) = beh["shuffle_seed"].as_u64() {
